@@ -528,6 +528,31 @@ def r15_2_simplification_shapes(ctx: Ctx) -> None:
     else:
         run.fail("R15.2", "Engine.transfer:conform-source", "the source of a new Transfer is not conformed by its own engine first", fi=tr)
 
+    # Engine.transfer / Engine.materialize hand back the given relation or exactly one new marker around it
+    for fn_name, marker, given in (("transfer", "Transfer", tp[0]), ("materialize", "Materialization", None)):
+        fn = m.func(ENGINE, f"Engine.{fn_name}")
+        gp = given or [q for q in fn.params if q != "self"][0]
+        for i, p in enumerate(ctx.paths(fn)):
+            if p.outcome != "return":
+                continue
+            v = p.value
+            vb = resolve_name(p, v.id) if isinstance(v, ast.Name) and v.id != gp else v
+            inst = f"Engine.{fn_name}:returns:path{i}"
+            is_given = isinstance(v, ast.Name) and v.id == gp
+            is_marker = isinstance(vb, ast.Call) and (dotted(vb.func) or "").split(".")[-1] == marker
+            if is_given or is_marker:
+                run.ok("R15.2", inst)
+            else:
+                run.fail(
+                    "R15.2",
+                    inst,
+                    f"Engine.{fn_name} returns `{src(v)[:70]}`: it may hand back the relation it was given (or the simplified one) or a new {marker} around it, nothing else - "
+                    "a substitute (another leaf, a renamed copy of a locked node) is not the object the caller holds, and whatever is cached on the one is not seen by the other",
+                    fi=fn,
+                    node=p.node,
+                    details=describe(p),
+                )
+
     # Materialization.simplify
     ms = m.func(MATERIALIZATION, "Materialization.simplify")
     mt = [p for p in ms.params if p != "cls"][0]
@@ -701,6 +726,33 @@ def r17_conform(ctx: Ctx, rules: tuple[str, str, str] = ("R17.1", "R17.2", "R17.
                     node=p.node,
                     details=describe(p),
                 )
+
+    # a marker the engine does not know is looked through: what stays under the new Select is the conformed target
+    # (to_payload has arms for the kinds conform leaves there - it has none for somebody else's marker)
+    mk = [(case_index(p, "MarkerRelation", r), p) for p in ctx.paths(conform)]
+    mk = [(i, p) for i, p in mk if i >= 0 and p.outcome == "return" and case_index(p, "Select", r) < 0]
+    for i, p in mk:
+        from ..astutil import pattern_class_names as _pcn
+
+        if _pcn(p.steps[i].node.pattern) != ["MarkerRelation"]:  # type: ignore[union-attr]
+            continue
+        v = p.value
+        vb = resolve_name(p, v.id) if isinstance(v, ast.Name) else v
+        a0 = vb.args[0] if isinstance(vb, ast.Call) and call_attr(vb) == "apply_skip" and vb.args else None
+        ab = resolve_name(p, a0.id) if isinstance(a0, ast.Name) else a0
+        ok = isinstance(ab, ast.Call) and call_attr(ab) == "conform" and src(ab.func.value) == "self" and bool(ab.args) and _denotes(p, ab.args[0], r, ("target",))
+        if ok:
+            run.ok(r1, "conform(other marker)")
+        else:
+            run.fail(
+                r1,
+                "conform(other marker)",
+                f"conform of a marker kind the SQL engine does not know returns `{src(vb)[:70] if isinstance(vb, ast.AST) else '?'}` instead of Select.apply_skip(self.conform(<target>)): "
+                "a marker left under the Select is a node to_payload has no arm for - the tree is accepted and cannot be compiled",
+                fi=conform,
+                node=p.node,
+                details=describe(p),
+            )
 
     good = select_producing(ctx)
     for name in ("make_leaf", "conform", "materialize", "transfer", "append_unary", "append_binary", "make_doomed_relation", "make_join_identity_relation", "_append_unary_to_select", "_append_binary_to_select"):
